@@ -130,19 +130,21 @@ def case_linked_and_embedded():
     return {'meta': {'pages': pages}, 'opts': o, 'starts': [('h1', '/')], 'start_spellings': [es.canon('h1', '/')]}
 
 
-def case_finish_together(delay, width):
-    """two workers whose last two items end in the same moment: a leaf and a page that still has a link to add (several such
-    pairs, answered after the same delay).  Whether the crawl may stop is decided between those two completions"""
+def case_finish_together(delay, stages):
+    """two workers whose only two in-flight items end in the same moment, again and again: stage k has a leaf a<k> and a page
+    b<k> that still has one link to add (to c<k>, which opens stage k+1); all answered after the same delay.  Whether the crawl
+    may stop is decided between those two completions - once per stage"""
     P = lambda kind, **kw: dict({'kind': kind, 'links': [], 'target': None, 'delay': 0.0, 'code': 200}, **kw)
     L = lambda p: ('h1', p, False, p)
-    leaves = ['/a', '/t', '/u/v', '/zz'][:width]
-    docs = ['/b', '/r3', '/d/e', '/k/m/n.html'][:width]
-    tails = ['/c.html', '/k/l', '/d/f.html', '/p/q?y=2'][:width]
-    pages = {('h1', '/'): P('doc', links=[L(x) for pair in zip(leaves, docs) for x in pair])}
-    for lf, dc, tl in zip(leaves, docs, tails):
-        pages[('h1', lf)] = P('leaf', delay=delay)
-        pages[('h1', dc)] = P('doc', links=[L(tl)], delay=delay)
-        pages[('h1', tl)] = P('leaf', delay=delay)
+    pages = {}
+    prev = '/'
+    for k in range(stages):
+        a, b, c = '/s%d/a' % k, '/s%d/b' % k, '/s%d/c.html' % k
+        pages[('h1', prev)] = P('doc', links=[L(a), L(b)], delay=0.0 if prev == '/' else delay)
+        pages[('h1', a)] = P('leaf', delay=delay)
+        pages[('h1', b)] = P('doc', links=[L(c)], delay=delay)
+        prev = c
+    pages[('h1', prev)] = P('leaf', delay=delay)
     o = {'recursive': True, 'preq': False, 'level': None, 'prl': None, 'no_parent': False, 'tries': 1, 'acc': None, 'rej': None,
          'span': False, 'span_preq': False, 'span_linked': False, 'maxredir': None, 'conc': 2}
     return {'meta': {'pages': pages}, 'opts': o, 'starts': [('h1', '/')], 'start_spellings': [es.canon('h1', '/')]}
@@ -240,8 +242,8 @@ def classify(v):
 # --------------------------------------------------------------------------
 def gen_cases(r, n, thorough=False):
     cases = [('f28', case_f28()), ('f29', case_f29()), ('root-first', case_root_first()), ('many-links', case_many_links()), ('frame-diamond', case_frame_diamond()), ('linked-and-embedded', case_linked_and_embedded()),
-             ('finish-together-1', case_finish_together(0.05, 1)), ('finish-together-2', case_finish_together(0.1, 2)),
-             ('finish-together-4', case_finish_together(0.03, 4))]
+             ('finish-together-a', case_finish_together(0.03, 8)), ('finish-together-b', case_finish_together(0.08, 6)),
+             ('finish-together-c', case_finish_together(0.0, 8))]
     for i in range(n):
         kind = i % 6
         if kind == 0:
@@ -346,6 +348,18 @@ def correspondence(ctx):
             samples.append({'args': es.args_of(o, case['start_spellings']), 'pages': len(case['meta']['pages']),
                             'rows': f['rows'], 'requests': f['requests'],
                             'duplicate_inserts_ignored': f['ignored_duplicate_inserts']})
+    # "for all schedules": real crawls only sample the schedules the clock happens to produce.  The engine's producer / worker
+    # pipeline is also run on the scripted event loop of C13 with a growing item source (an item's processing adds new items,
+    # as a page adds links): every created item must be processed, on every explored interleaving of coroutine steps
+    from harness.corr import c13
+    tcases = c13._table_cases(common.rng('c01-sched'), 400 if not ctx.thorough else 6000)
+    tcases, tresults, _ = c13._run_impl(tcases)
+    for v in c13._violations(tcases, tresults):
+        violations.append(dict(v, why='pipeline-schedule:%s' % v.get('why'), sched=True))
+    dist['scripted_pipeline_schedules'] = {'runs': len(tcases),
+                                           'all_created_items_processed': sum(1 for c, x in zip(tcases, tresults)
+                                                                              if x['terminal'] == 'returned' and x['pool_left'] == 0
+                                                                              and x['created'] == c['n'])}
     return {
         'evaluations': n_eval,
         'distinct_nontrivial': len(nontriv),
@@ -379,6 +393,9 @@ def search(ctx, disagreements):
 
 
 def replay(ctx, data):
+    if data.get('sched'):
+        from harness.corr import c13
+        return c13.replay(ctx, data)
     case = es.case_from_json(data['case'])
     want = data.get('key') or classify(data)
     for attempt in range(3):                   # schedules with several workers are timing dependent
@@ -402,6 +419,9 @@ LEVEL_TEXT = (
     'of fetched URLs depends on the schedule under a depth limit (C01_schedule_independent_refuted); with ONE worker schedule '
     'independence is proved with no guard at all - same table rows with the same recorded columns in the same order, same requests, '
     'however far the producer runs ahead and however often the process is killed (C01_one_worker_schedule_independent). '
+    '"All schedules" is carried for the model by the theorems, for the code by real crawls with 1-4 workers and, since real crawls '
+    'only sample the schedules the clock produces, by running the real producer/worker pipeline with a growing item source on the '
+    'scripted event loop of C13 (every created item must be processed on every explored interleaving). '
     '"In whatever spelling" is carried by the correspondence (spellings are tied to canonical URLs by the generator: scheme/host case, '
     'fragments, dot and empty segments at the start, in the middle and at the END of the path, relative forms) and by C10, not by these '
     'theorems. The first-discovery defect has a second face, also a known finding (root-first-discovery): with several start URLs a row keeps '
